@@ -389,7 +389,15 @@ fn check_fit(out: &mut Out, st: &mut LrStats, x: &[Vec<f64>], y: &[f64], alpha: 
     out.count(&format!("search:fit:k={}", k));
     let fit = match run_fit(x, y, alpha, x) {
         Err(msg) => {
-            out.fail("fit_returns", &format!("panic: {}", msg), input);
+            // finding (reported, see corpus/C09/linesearch_panic_separable_alpha0.json): without a penalty, on
+            // separable data, the objective tends to 0, the curvature pairs become rounding noise, L-BFGS hands an
+            // ascent direction to the line search and the line search panics after 1001 backtracking steps
+            if alpha == 0.0 && msg.contains("Linesearch failed to converge") {
+                out.known("lr-linesearch-panic-unpenalised", &format!("LogisticRegression::fit with alpha = 0 panicked: {} (replay: {})", msg, input));
+                out.count("search:fit:known-finding:linesearch-panic-alpha=0");
+            } else {
+                out.fail("fit_returns", &format!("panic: {}", msg), input);
+            }
             return None;
         }
         Ok(Err(msg)) => {
@@ -973,6 +981,10 @@ fn replay(path: &str) -> i32 {
             let x = rows_from_json(&inp["x"]);
             let y = f64s_from_json(&inp["y"]);
             let alpha = inp["alpha"].as_f64().unwrap_or(0.0);
+            if let Err(msg) = run_fit(&x, &y, alpha, &x) {
+                println!("REPLAY: property=C09 still fails (fit panics: {}): {}", msg, path);
+                return 1;
+            }
             check_fit(&mut out, &mut st, &x, &y, alpha, "replay");
         }
         "quad" => {
